@@ -439,7 +439,30 @@ def infeasibility_monotone(ctx, rule='A5r'):
                         'of the incoming graph (an infeasible graph never becomes feasible by taking further choices)')
 
 
+def resolved_on_every_apply(ctx, rule='A5r'):
+    """Applying a selection choice always evaluates the incompatibility constraints of the graph for the new set of
+    confirmed nodes: the resolver (get_mod_nodes_remove_incompatibilities, directly or through a private helper) lies
+    on every path to the return of the full modification.  A shortcut ("only if the chosen option itself is part of a
+    constraint") misses constraints on nodes the option derives."""
+    fn0 = ctx.fn(f'{CHOICES}:get_mod_apply_selection_choice')
+    fn = inlined_view(ctx.prog, fn0)
+    cfg = build_cfg(fn)
+    wrappers = {u.name for u in unit_functions(ctx.prog, fn0)[1:]
+                if any(True for _ in calls(u, 'get_mod_nodes_remove_incompatibilities'))}
+    through = [n for n in cfg.nodes if n.ast is not None and any(
+        isinstance(c, ast.Call) and (call_name(c) == 'get_mod_nodes_remove_incompatibilities' or call_name(c) in wrappers)
+        for c in ast.walk(n.ast if n.kind != 'for' else n.ast.iter))]
+    rets = [n for n in cfg.nodes if n.kind == 'stmt' and isinstance(n.ast, ast.Return)]
+    if not rets or not through:
+        raise AnalysisError('get_mod_apply_selection_choice: resolver call / final return not found')
+    final = max(rets, key=lambda n: n.lineno)
+    guards.check_passes(ctx, rule, fn0, [final], through, 'incompatibilities-resolved-on-every-apply',
+                        'the full modification of an applied selection choice is returned only after the '
+                        'incompatibility constraints were evaluated for the new confirmed nodes')
+
+
 def check(ctx):
+    resolved_on_every_apply(ctx)
     feasible_shape(ctx)
     handlers(ctx)
     removal_shape(ctx)
